@@ -16,6 +16,7 @@ program!(c15_hsv_in_gamut, "C15", "quick", s,
     T::ensure("rgb_in_unit_cube", conj::<T>(&[in_range(c.red, -1e-9, 1.0 + 1e-9), in_range(c.green, -1e-9, 1.0 + 1e-9), in_range(c.blue, -1e-9, 1.0 + 1e-9)]));
     let (r, g, b) = (T::var("r", 0.0, 1.0), T::var("g", 0.0, 1.0), T::var("b", 0.0, 1.0));
     let k: Hsv<Srgb, T> = Hsv::from_color_unclamped(Rgb::<T>::new(r, g, b));
+    T::output("s", &k.saturation); T::output("v", &k.value); T::output("h", &k.hue.into_raw_degrees());
     T::ensure("hsv_within_bounds", T::p_and(in_range(k.saturation, -1e-9, 1.0 + 1e-9), in_range(k.value, -1e-9, 1.0 + 1e-9)));
 });
 
@@ -28,6 +29,7 @@ program!(c15_hsl_in_gamut, "C15", "quick", s,
     T::ensure("rgb_in_unit_cube", conj::<T>(&[in_range(c.red, -1e-9, 1.0 + 1e-9), in_range(c.green, -1e-9, 1.0 + 1e-9), in_range(c.blue, -1e-9, 1.0 + 1e-9)]));
     let (r, g, b) = (T::var("r", 0.0, 1.0), T::var("g", 0.0, 1.0), T::var("b", 0.0, 1.0));
     let k: Hsl<Srgb, T> = Hsl::from_color_unclamped(Rgb::<T>::new(r, g, b));
+    T::output("s", &k.saturation); T::output("l", &k.lightness);
     T::ensure("hsl_within_bounds", T::p_and(in_range(k.saturation, -1e-9, 1.0 + 1e-9), in_range(k.lightness, -1e-9, 1.0 + 1e-9)));
 });
 
@@ -41,6 +43,7 @@ program!(c15_hwb_in_gamut, "C15", "quick", s,
     T::ensure("rgb_in_unit_cube", conj::<T>(&[in_range(c.red, -1e-9, 1.0 + 1e-9), in_range(c.green, -1e-9, 1.0 + 1e-9), in_range(c.blue, -1e-9, 1.0 + 1e-9)]));
     let (r, g, bl) = (T::var("r", 0.0, 1.0), T::var("g", 0.0, 1.0), T::var("bl", 0.0, 1.0));
     let k: Hwb<Srgb, T> = Hwb::from_color_unclamped(Rgb::<T>::new(r, g, bl));
+    T::output("w", &k.whiteness); T::output("b", &k.blackness);
     T::ensure("hwb_within_bounds", conj::<T>(&[T::p_le(&T::k(-1e-9), &k.whiteness), T::p_le(&T::k(-1e-9), &k.blackness), T::p_le(&(k.whiteness + k.blackness), &T::k(1.0 + 1e-9))]));
     let back: Rgb<T> = Rgb::from_color_unclamped(k);
     let tol = T::tol(1e-9, 1e-5);
